@@ -286,6 +286,130 @@ func c19SpecSelector(sel string, f gts.Feature) (bool, bool) {
 	return true, false
 }
 
+// --- selectors with backslashes, qualifier tables as they are (lean/Gts/Spec/SelectorEsc.lean) ---
+
+// c19EscapedAfter restates SelSpec.escapedAfter: is a '/' standing behind the text pre escaped —
+// going back over the slashes directly in front of it one meets a backslash.
+func c19EscapedAfter(pre string) bool {
+	i := len(pre)
+	for i > 0 && pre[i-1] == '/' {
+		i--
+	}
+	return i > 0 && pre[i-1] == '\\'
+}
+
+// c19EscSplit restates SelSpec.escSplit: the segments between the unescaped slashes, nothing removed.
+func c19EscSplit(s string) []string {
+	var segs []string
+	start := 0
+	for i := 0; i < len(s); i++ {
+		if s[i] == '/' && !c19EscapedAfter(s[:i]) {
+			segs = append(segs, s[start:i])
+			start = i + 1
+		}
+	}
+	return append(segs, s[start:])
+}
+
+// c19SpecSegments restates SelSpec.selectorSegments: a trailing empty segment behind the key is no part.
+func c19SpecSegments(s string) []string {
+	segs := c19EscSplit(s)
+	if len(segs) > 1 && segs[len(segs)-1] == "" {
+		segs = segs[:len(segs)-1]
+	}
+	return segs
+}
+
+// c19CodeSegments: the key and the parts the loop of Selector goes through, on the real shiftSelector.
+func c19CodeSegments(s string) []string {
+	head, tail := gts.VerifShiftSelector(s)
+	segs := []string{head}
+	for tail != "" {
+		head, tail = gts.VerifShiftSelector(tail)
+		segs = append(segs, head)
+	}
+	return segs
+}
+
+// c19SpecParseEsc: key and clauses of the grammar with escapes (SelSpec.keyEsc / clausesEsc).
+func c19SpecParseEsc(sel string) (string, []c19Clause) {
+	segs := c19SpecSegments(sel)
+	var cs []c19Clause
+	for _, seg := range segs[1:] {
+		if i := strings.IndexByte(seg, '='); i >= 0 {
+			cs = append(cs, c19Clause{seg[:i], seg[i+1:]})
+		} else {
+			cs = append(cs, c19Clause{seg, ""})
+		}
+	}
+	return segs[0], cs
+}
+
+// c19LitMatchEsc: the literal reading of a restricted regexp whose only escapes are `\/` (a slash).
+func c19LitMatchEsc(rx, v string) bool {
+	return strings.Contains(v, strings.ReplaceAll(rx, `\/`, "/"))
+}
+
+// c19OnlySlashEscapes: every backslash of the selector is followed by a slash (the class for which
+// c19LitMatchEsc is the regexp's meaning).
+func c19OnlySlashEscapes(sel string) bool {
+	for i := 0; i < len(sel); i++ {
+		if sel[i] == '\\' && (i+1 >= len(sel) || sel[i+1] != '/') {
+			return false
+		}
+	}
+	return true
+}
+
+// c19ClauseSatRows restates SelSpec.clauseSatRows (Gts.C19.qualifier_rows_spec): what a clause tests
+// on ANY qualifier table whose rows have names — unnamed: every value of every row; named with an
+// empty regexp: is there a row of that name; named: the values of the FIRST row of that name.
+func c19ClauseSatRows(c c19Clause, f gts.Feature, match func(rx, v string) bool) bool {
+	if c.name == "" {
+		for _, row := range f.Props {
+			for _, v := range row[1:] {
+				if match(c.rx, v) {
+					return true
+				}
+			}
+		}
+		return false
+	}
+	for _, row := range f.Props {
+		if row[0] == c.name {
+			if c.rx == "" {
+				return true
+			}
+			for _, v := range row[1:] {
+				if match(c.rx, v) {
+					return true
+				}
+			}
+			return false
+		}
+	}
+	return false
+}
+
+// c19SpecSelectorRows restates SelSpec.acceptsRows (Gts.C19.selector_rows_spec): (accepts, error).
+func c19SpecSelectorRows(sel string, f gts.Feature) (bool, bool) {
+	key, cs := c19SpecParseEsc(sel)
+	for _, c := range cs {
+		if !c19LitValid(c.rx) {
+			return false, true
+		}
+	}
+	if key != "" && f.Key != key {
+		return false, false
+	}
+	for _, c := range cs {
+		if !c19ClauseSatRows(c, f, c19LitMatchEsc) {
+			return false, false
+		}
+	}
+	return true, false
+}
+
 // c19Leaves: the contiguous leaves of a location as [start, end) spans.
 func c19Leaves(l gts.Location) [][2]int {
 	switch v := l.(type) {
@@ -606,34 +730,38 @@ func c19Select(r *Run, sel string, f gts.Feature) {
 		r.fail(Failure{Oracle: "Selector never panics on rows that have a name", Op: line, Got: out})
 		return
 	}
-	if strings.ContainsRune(sel, '\\') {
-		r.count("selector/escaped(correspondence only)")
-		r.eval("sel|"+line, false)
-		return
+	rowsNamed := true
+	for _, row := range f.Props {
+		if len(row) == 0 {
+			rowsNamed = false
+		}
 	}
-	if !c19PropsWf(f.Props) {
-		// raw rows (a name held by two rows, a row without value): a named clause reads such a
-		// table through Props.Get (first row of that name) and is compared with the model only;
-		// an unnamed clause "needs some value of any qualifier" and that reading is the same
-		// for raw rows, so selectors made of unnamed clauses keep their oracle
-		_, cs := c19SpecParse(sel)
-		unnamedOnly := len(cs) > 0
-		for _, c := range cs {
-			if c.name != "" {
-				unnamedOnly = false
-			}
-		}
-		for _, row := range f.Props {
-			if len(row) == 0 {
-				unnamedOnly = false
-			}
-		}
-		if !unnamedOnly {
-			r.count("selector/raw props rows(correspondence only)")
+	if strings.ContainsRune(sel, '\\') || !c19PropsWf(f.Props) {
+		// selectors with backslashes and raw qualifier tables (a name held by two rows, a row without
+		// value): the code's own reading, proved for the model as Gts.C19.selector_rows_spec — the
+		// split with escapes, a named clause through Props.Get (FIRST row of that name).  The literal
+		// regexp oracle knows `\/` only; rows without a name make props[i][0] panic.
+		if !c19OnlySlashEscapes(sel) || !rowsNamed {
+			r.count("selector/other escapes or unnamed rows(correspondence only)")
 			r.eval("sel|"+line, false)
 			return
 		}
-		r.count("selector/raw props rows, unnamed clauses")
+		want, werr := c19SpecSelectorRows(sel, f)
+		_, cs := c19SpecParseEsc(sel)
+		if strings.ContainsRune(sel, '\\') {
+			r.count("selector/escaped")
+		} else {
+			r.count("selector/raw props rows")
+		}
+		r.eval("sel|"+line, len(cs) > 0 || sel != "")
+		ws := b01(want)
+		if werr {
+			ws = "ERR"
+		}
+		if out != ws {
+			r.fail(Failure{Oracle: "selector (escapes / raw rows) accepts iff key of the escaped grammar equal (when given) and every clause satisfied row by row", Op: line, Got: out, Want: ws})
+		}
+		return
 	}
 	want, werr := c19SpecSelector(sel, f)
 	_, cs := c19SpecParse(sel)
@@ -884,6 +1012,16 @@ func propC19(r *Run) {
 		line := "sel.shift " + encStr(s)
 		out := r.op(line)
 		r.count("shift/strings")
+		// every string, backslashes included: the parts Selector iterates over are the segments of the
+		// declarative split with escapes (Gts.C19.selector_parts_spec), and joining the segments gives
+		// the string back (selector_split_join)
+		if got, want := c19CodeSegments(s), c19SpecSegments(s); strings.Join(got, "\x00") != strings.Join(want, "\x00") {
+			r.fail(Failure{Oracle: "Selector's parts (iterated shiftSelector) are the segments of the split with escapes", Op: line,
+				Got: fmt.Sprintf("%q", got), Want: fmt.Sprintf("%q", want)})
+		}
+		if strings.Join(c19EscSplit(s), "/") != s {
+			r.fail(Failure{Oracle: "the segments of the split with escapes, joined by '/', are the string", Op: line, Got: fmt.Sprintf("%q", c19EscSplit(s))})
+		}
 		if !strings.ContainsRune(s, '\\') {
 			h, t := gts.VerifShiftSelector(s)
 			wh, wt := s, ""
